@@ -133,7 +133,7 @@ func checkC20(ctx *Ctx) {
 	defer os.RemoveAll(root)
 	cli := filepath.Join(root, "scipipe-cli")
 	b := exec.Command("go", "build", "-o", cli, "github.com/scipipe/scipipe/cmd/scipipe")
-	b.Dir = "/verif/harness"
+	b.Dir = harnessDir()
 	b.Env = append(os.Environ(), "GOFLAGS=-mod=mod", "GOPROXY=off", "GOSUMDB=off", "GOTOOLCHAIN=local")
 	if out, err := b.CombinedOutput(); err != nil {
 		ctx.Res.Disagree(Violation{What: "cannot build the scipipe CLI: " + string(out), Witness: nil})
